@@ -42,11 +42,11 @@ fn histories(ds: &[Datum]) -> Vec<Hist> {
 		// three blocks, each cut by the size threshold or by into_inner
 		Hist { id: "HA", datum: 0, block_size: d.big_len as u32, ops: vec![Big, Big, Small, IntoInner] },
 		// three blocks by finish_block / finish_block / drop, multi-object blocks, a failing value in between
-		Hist { id: "HB", datum: 0, block_size: 64 * 1024, ops: vec![Small, Small, Finish, Push2, Fail(3), Finish, Small, Drop] },
+		Hist { id: "HB", datum: 0, block_size: 64 * 1024, ops: vec![Small, SmallRev, Finish, Push2, FailRev(6), Finish, SmallRev, Drop] },
 		// block size 0: every value is its own block, into_inner has nothing left to write
 		Hist { id: "HC", datum: 0, block_size: 0, ops: vec![Small, Big, Push1, IntoInner] },
 		// five blocks, all entry points
-		Hist { id: "HD", datum: 0, block_size: d.small_len as u32 + 1, ops: vec![Small, Small, Big, Push1, Finish, Small, Small, Small, IntoInner] },
+		Hist { id: "HD", datum: 0, block_size: d.small_len as u32 + 1, ops: vec![Small, SmallRev, BigMix, Push1, Finish, Small, Small, SmallRev, IntoInner] },
 		// schema null: zero-byte datums, the data slice of the vectored write is empty under the null codec
 		Hist { id: "HN", datum: 1, block_size: 1, ops: vec![Small, Small, Finish, Push2, BadType, Finish, Small, IntoInner] },
 	]
@@ -179,6 +179,11 @@ fn execute(d: &Datum, u: &Unit, horizon: usize, decide: &mut dyn FnMut(usize, &[
 		sink,
 		&u.hist.ops,
 		&mut |_i, rec| {
+			if rec.drop_after_panic {
+				// the executor's own clean-up after a call that panicked: not a call of the history
+				c3.borrow_mut().disposing = true;
+				return false;
+			}
 			records.push(rec.clone());
 			let c = c3.borrow();
 			c.fault.is_none() && !c.horizon
@@ -206,7 +211,9 @@ fn reference(d: &Datum, u: &Unit) -> Reference {
 		&mut bytes,
 		&u.hist.ops,
 		&mut |_i, rec| {
-			kinds.push(rec.result.kind());
+			if !rec.drop_after_panic {
+				kinds.push(rec.result.kind());
+			}
 			true
 		},
 		&mut || {},
